@@ -31,6 +31,10 @@ pub fn prop() -> Prop {
 
 // ---------- (a) monitor over connection lifetimes ----------
 
+/// measured: observation points (state after each cycle of each end) and seals recorded by the hook
+pub static POINTS: std::sync::atomic::AtomicU64 = std::sync::atomic::AtomicU64::new(0);
+pub static SEALS: std::sync::atomic::AtomicU64 = std::sync::atomic::AtomicU64::new(0);
+
 #[derive(Serialize, Deserialize, Clone, Debug)]
 pub struct LifeCase {
     pub cipher: String,
@@ -137,6 +141,8 @@ pub fn run_life(c: &LifeCase) -> CaseResult {
     }
     // the log
     let log = cv::core::seal_log_take();
+    POINTS.fetch_add(points, std::sync::atomic::Ordering::Relaxed);
+    SEALS.fetch_add(log.len() as u64, std::sync::atomic::Ordering::Relaxed);
     let mut seen: HashSet<([u8; 16], [u8; 12])> = HashSet::new();
     let mut halves: HashMap<[u8; 16], HashSet<u8>> = HashMap::new();
     for (fp, nonce) in &log {
@@ -410,8 +416,9 @@ pub fn run(ctx: &Ctx) {
     {
         let mut fams = ctx.families.lock().unwrap();
         if let Some(f) = fams.iter_mut().find(|f| f.name == "lifetimes") {
-            f.states = st.evaluations * 2 * ctx.tier.pick(8, 12) as u64;
-            f.transitions = st.evaluations * (2 * ctx.tier.pick(8, 12) as u64) * 2;
+            let _ = &st;
+            f.states = POINTS.load(std::sync::atomic::Ordering::Relaxed);
+            f.transitions = SEALS.load(std::sync::atomic::Ordering::Relaxed);
         }
     }
     ctx.assume("random 48-bit counter starts: a start within 256 of another key's counters would be reported as 'predictable start' (probability below 1e-5 per run)");
